@@ -1,11 +1,11 @@
 package refcurve
 
 import (
+	"bytes"
 	"crypto/ecdh"
-	"crypto/ed25519"
+	stded25519 "crypto/ed25519"
 	"crypto/elliptic"
 	"crypto/sha512"
-	"bytes"
 	"math/big"
 	"testing"
 	"time"
@@ -30,7 +30,7 @@ func TestConstantsBasic(t *testing.T) {
 		if !c.IsOnCurve(c.Neutral()) || !c.IsNeutral(c.Neutral()) {
 			t.Errorf("%s: neutral element", c.Name)
 		}
-		if !c.IsNeutral(c.ScalarMul(c.G, c.N)) || !c.IsNeutral(c.ScalarMulAffine(c.G, c.N)) {
+		if !c.IsNeutral(c.ScalarMul(c.G, c.N)) || !c.IsNeutral(c.ScalarMulProjective(c.G, c.N)) {
 			t.Errorf("%s: [N]G != neutral", c.Name)
 		}
 		if !c.IsInPrimeSubgroup(c.G) {
@@ -370,7 +370,7 @@ func TestGroupLaws(t *testing.T) {
 	}
 }
 
-func TestScalarMulFastEqualsAffine(t *testing.T) {
+func TestScalarMulAffineEqualsProjective(t *testing.T) {
 	d := newDRBG("fast")
 	for _, c := range All() {
 		n := c.N
@@ -406,9 +406,9 @@ func TestScalarMulFastEqualsAffine(t *testing.T) {
 				ks = edge[:14]
 			}
 			for _, k := range ks {
-				a, b := c.ScalarMul(p, k), c.ScalarMulAffine(p, k)
+				a, b := c.ScalarMul(p, k), c.ScalarMulProjective(p, k)
 				if !c.Equal(a, b) || !c.IsOnCurve(a) {
-					t.Fatalf("%s: ScalarMul != ScalarMulAffine for point #%d, k=%v: %v vs %v", c.Name, pi, k, a, b)
+					t.Fatalf("%s: ScalarMul != ScalarMulProjective for point #%d, k=%v: %v vs %v", c.Name, pi, k, a, b)
 				}
 			}
 		}
@@ -418,8 +418,8 @@ func TestScalarMulFastEqualsAffine(t *testing.T) {
 		}
 		for i := 0; i < iters; i++ {
 			p, k := d.randPoint(c), d.below(new(big.Int).Lsh(bigOne, uint(1+d.intn(320))))
-			if !c.Equal(c.ScalarMul(p, k), c.ScalarMulAffine(p, k)) {
-				t.Fatalf("%s: ScalarMul != ScalarMulAffine for random k=%v", c.Name, k)
+			if !c.Equal(c.ScalarMul(p, k), c.ScalarMulProjective(p, k)) {
+				t.Fatalf("%s: ScalarMul != ScalarMulProjective for random k=%v", c.Name, k)
 			}
 		}
 		// small multiples by repeated addition
@@ -601,7 +601,7 @@ func TestEd25519AgainstStdlib(t *testing.T) {
 		h := sha512.Sum512(seed)
 		a := X25519Clamp(h[:32]) // RFC 8032 clamping is the same bit fiddling as RFC 7748
 		pk := EncodeEd25519(c.ScalarBaseMul(a))
-		want := ed25519.NewKeyFromSeed(seed).Public().(ed25519.PublicKey)
+		want := stded25519.NewKeyFromSeed(seed).Public().(stded25519.PublicKey)
 		if !bytes.Equal(pk, want) {
 			t.Fatalf("ed25519 public key differs from crypto/ed25519 for seed %x", seed)
 		}
@@ -668,7 +668,7 @@ func TestTimingReport(t *testing.T) {
 		fast := time.Since(t0) / time.Duration(n)
 		t0 = time.Now()
 		for i := 0; i < n; i++ {
-			c.ScalarMulAffine(p, k)
+			c.ScalarMulProjective(p, k)
 		}
 		aff := time.Since(t0) / time.Duration(n)
 		t0 = time.Now()
@@ -676,7 +676,7 @@ func TestTimingReport(t *testing.T) {
 			c.Add(p, c.G)
 		}
 		add := time.Since(t0) / 200
-		t.Logf("%-14s ScalarMul %8v   ScalarMulAffine %8v   Add %8v", c.Name, fast, aff, add)
+		t.Logf("%-14s ScalarMul(affine) %8v   ScalarMulProjective %8v   Add %8v", c.Name, fast, aff, add)
 	}
 	t0 := time.Now()
 	for i := 0; i < 20; i++ {
